@@ -14,7 +14,7 @@ use std::collections::{BTreeMap, HashSet};
 pub const PLAIN: [&str; 10] = ["f", "x", "Some(1)", "|v| v", "g::h", "|v| v + 1", "Ok::<_, ()>(2)", "vec![1, 2].into_iter()", "self.f", "{ let c = 1; move |v| v + c }"];
 
 /// operands that contain operator look-alikes but no top-level split point
-pub const ADVERSARIAL: [&str; 48] = [
+pub const ADVERSARIAL: [&str; 76] = [
     // inside parentheses / brackets / braces
     "(a | b)",
     "(x <= y)",
@@ -68,13 +68,42 @@ pub const ADVERSARIAL: [&str; 48] = [
     "-1",
     "&mut acc",
     "x?.len()",
+    // more incomplete-operand prefixes and unusual but legal operand shapes
+    "while a <= b { a += 1 }",
+    "for i in 0..3 { g(i) }",
+    "loop { break 1 }",
+    "'l: loop { break 'l }",
+    "async move { x }",
+    "unsafe { f() }",
+    "move || -> u8 { 1 }",
+    "|a| |b| a + b",
+    "f(|a| -> u8 { a })",
+    "(|a| a)(1)",
+    "r#match",
+    "a?.b?.c",
+    "x.await",
+    "*&x",
+    "&&x",
+    "Foo::<{ N }>::new()",
+    "x as u8 as u16",
+    "<T>::f",
+    "t.0.1",
+    "a.b::<C, D>()",
+    "-x.abs()",
+    "\"\\\"|>\\\"\"",
+    "'\\''",
+    "0x1f",
+    "1.5e3",
+    "if let Some(n) = o { n } else { 0 }",
+    "match r { Ok(v) if v > 0 => v, _ => 0 }",
+    "S { a: 1, b: x <= y }",
 ];
 
 /// identifiers that are also keywords of the DSL
 pub const KEYWORDISH: [&str; 4] = ["then", "map", "and_then", "n"];
 
 /// operands that start with a bracket group (after `=>` they look like `=>[]`)
-pub const BRACKET_LEADING: [&str; 2] = ["[1u8, 2][0]", "[f, g][0]"];
+pub const BRACKET_LEADING: [&str; 3] = ["[1u8, 2][0]", "[f, g][0]", "[0u8; 4]"];
 
 pub const MEMBERS: [&str; 8] = ["len()", "0", "iter().rev()", "unwrap_or(1)", "map(|x| x + 1)", "f::<A, B>(a, b)", "await", "get(a..b)"];
 pub const TYPES: [&str; 6] = ["Vec<_>", "Vec<Vec<u8>>", "HashMap<K, Vec<V>>", "(A, B)", "[u8; 4]", "Box<dyn Fn(u8) -> u8>"];
@@ -456,6 +485,12 @@ pub fn known_signature_of(p: &SProg, _detail: &str) -> Option<String> {
             }
         }
     }
+    // `let` in front of an initial value that is a struct literal
+    for b in &p.branches {
+        if b.let_name.is_some() && matches!(syn::parse_str::<syn::Expr>(&b.init), Ok(syn::Expr::Struct(_))) {
+            return Some("let-before-struct-literal".into());
+        }
+    }
     // `let` in front of an initial value that is a top-level `&&` / `||` expression
     for b in &p.branches {
         if b.let_name.is_some() {
@@ -476,6 +511,7 @@ pub fn canonical_struct(sig: &str) -> Option<SProg> {
     match sig {
         "and_then-followed-by-bracket-leading-operand" => Some(SProg { options: vec![], branches: vec![br(None, "x", vec![act(1, "[f, g][0]")])], handler: None, trailing_comma: false }),
         "let-before-top-level-lazy-boolean" => Some(SProg { options: vec![], branches: vec![br(Some(("a0".into(), false)), "a && b || c", vec![act(0, "f")])], handler: None, trailing_comma: false }),
+        "let-before-struct-literal" => Some(SProg { options: vec![], branches: vec![br(Some(("a0".into(), false)), "S { a: 1, b: x <= y }", vec![act(0, "f")])], handler: None, trailing_comma: false }),
         _ => None,
     }
 }
@@ -484,6 +520,7 @@ pub fn canonical_example(sig: &str) -> &'static str {
     match sig {
         "and_then-followed-by-bracket-leading-operand" => "x => [f, g][0]",
         "let-before-top-level-lazy-boolean" => "let a0 = a && b || c |> f",
+        "let-before-struct-literal" => "let a0 = S { a: 1, b: x <= y } |> f",
         _ => "",
     }
 }
